@@ -3,7 +3,7 @@
 From Coq Require Import ZArith List String Ascii Bool NArith Lia.
 From Verif Require Import Base.Res Base.Bytes Spec.PDP11 Spec.Arith Spec.DataSpec Gen.GenGetAsInt Gen.GenOpcodes
   Model.Insns Model.Directives Proofs.DirectivesGai Proofs.DirectivesData Proofs.DirectivesAnnounce
-  Model.Asm Proofs.AsmP Proofs.AsmSem Proofs.AsmMeta.
+  Model.Asm Model.AsmT Proofs.AsmP Proofs.AsmSem Proofs.AsmMeta.
 Import ListNotations.
 Notation length := Datatypes.length.
 Notation concat := List.concat.
@@ -37,9 +37,6 @@ Proof.
 Qed.
 
 (* ---- literals ---------------------------------------------------------------------------------- *)
-Definition numlit (n : nat) : expr := Lit (LNum false SBareOct false false (N.of_nat n)).
-Definition bytelit (b : Z) : expr := Lit (LNum false SBareOct false false (Z.to_N b)).
-
 Lemma xeval_lit enc alldefs allkeys exports labels ddots fuel vis c dot l :
   xeval enc alldefs allkeys exports labels ddots fuel vis c dot (Lit l) = lift (lit_value (cenc enc) l).
 Proof. destruct fuel; reflexivity. Qed.
